@@ -25,6 +25,7 @@ class Sched:
         self.managed = {}  # thread ident -> caller
         self.holders = {}  # lock path -> caller
         self.free_run = False
+        self.blocked = set()   # callers whose last attempt to take the lock failed (retried after a release / unlink)
         self.cache_file = None
         self.drift = []
         self.log = []  # (caller, kind) in execution order
@@ -72,9 +73,18 @@ class SchedLock(tcache.FileLock):
     def acquire(self, *a, **k):
         s = _S[0]
         if s is not None and threading.get_ident() in s.managed:
-            s.yield_point('acq', self.lock_file)
-            r = super().acquire(*a, **k)
-            s.holders[self.lock_file] = s.managed[threading.get_ident()]
+            import filelock
+
+            c = s.managed[threading.get_ident()]
+            while True:
+                s.yield_point('acq', self.lock_file)
+                try:
+                    # the REAL lock decides (same path may be another inode after an unlink): never block inside it
+                    r = super().acquire(timeout=0)
+                    break
+                except filelock.Timeout:
+                    s.blocked.add(c)
+            s.holders[self.lock_file] = c
             return r
         return super().acquire(*a, **k)
 
@@ -273,10 +283,13 @@ def execute(steps, ops, present, directory, cache_factory=None, key='the key', r
             first = set(ops)
             while len(s.finished) < len(ops):
                 with s.cv:
-                    ready = [c for c in sorted(s.parked) if not (s.parked[c][0] == 'acq' and s.parked[c][1] in s.holders)]
+                    ready = [c for c in sorted(s.parked) if c not in s.blocked]
+                    everyone_parked = len(s.parked) + len(s.finished) == len(ops)
                 if not ready:
                     if all(not t.is_alive() for t in threads.values()):
                         break
+                    if everyone_parked and s.blocked:
+                        break  # every live caller waits for a lock nobody will release: reported as hung
                     time.sleep(0.001)
                     continue
                 c = rng.choice(ready)
@@ -290,6 +303,8 @@ def execute(steps, ops, present, directory, cache_factory=None, key='the key', r
                             facts[o]['disturbed'] = True
                 if yk == 'comp':
                     facts[c]['computed'] = True
+                if yk in ('rel', 'unlink', 'cls'):
+                    s.blocked.clear()
                 s.release(c)
                 t0 = time.time()
                 while time.time() - t0 < 5:
